@@ -11,6 +11,7 @@ COMMON_TRUSTED = [
 
 # (file under coq/Gen, acra-vh arguments that print it): regenerated from /repo on every run
 GENERATORS = [
+    ("WireMysqlConsts.v", ["wiremyconsts"]),
     ("CensorKinds.v", ["censorkinds"]),
     ("CensorPatterns.v", ["censorpatterns"]),
     ("CensorWitness.v", ["censorwitness"]),
@@ -251,16 +252,48 @@ PROPS = {
         ]
     },
     "C14": {
-        "properties": ["C14", "C14_envelope", "C14_wire", "C14_tokens"],
+        "properties": [
+            "C14",
+            "C14_envelope",
+            "C14_wire",
+            "C14_tokens",
+            "C14_wire_mysql"
+        ],
         "domains": [
-            dom("c14env", "Model.RunEnvelopeChecked", 16, 600),
-            dom("c12", "Model.RunWire", 50, 800),
-            dom("c14fuzz", "", 250, 6000, model=False),
+            {
+                "name": "c14env",
+                "run_vo": "Model/RunEnvelopeChecked.vo",
+                "n_quick": 16,
+                "n_thorough": 600,
+                "model": True
+            },
+            {
+                "name": "c12",
+                "run_vo": "Model/RunWire.vo",
+                "n_quick": 50,
+                "n_thorough": 800,
+                "model": True
+            },
+            {
+                "name": "c12my",
+                "run_vo": "Model/RunWireMysql.vo",
+                "n_quick": 20,
+                "n_thorough": 800,
+                "model": True
+            },
+            {
+                "name": "c14fuzz",
+                "run_vo": ".vo",
+                "n_quick": 250,
+                "n_thorough": 6000,
+                "model": False
+            }
         ],
         "trusted": [
             "Lib/GoSlice.v is the definition of Go's slice/index/make run-time checks used by the checked model (slices are modelled with cap = len, which can only add panics); tied to the real code by replaying every observed ok/err/PANIC outcome of the malformed stream on the checked model",
             "modelled, not verified: Themis itself (abstract record); processors/callbacks of the scanners are universally quantified functions that never panic",
-            "Properties/C14_envelope.v holds the 55 envelope theorems of C14; Properties/C14.v re-exports it with the headline conjunction"
+            "Properties/C14_envelope.v holds the 55 envelope theorems of C14; Properties/C14.v re-exports it with the headline conjunction",
+            "MySQL (Model/MysqlWireExt.v, Properties/C12_mysql.v, domain c12my): packet framing, classification, binary rows, column definition packets and the COM_STMT_EXECUTE parameter block are CHECKED models replayed through the add-only hook decryptor/mysql/export_verif_x12my.go; MaxPayloadLen is a parameter of the model (theorems for every value; the multi-packet branch of ReadPacket/Dump is tied to the real code only by the 16 MiB implementation oracle of the thorough tier, such literals cannot be replayed in Coq); the subscribers of a row (onColumnDecryption) and GetType/GetData/Encode of a bound value are arbitrary functions in the theorems and scripted in the replay (their own behaviour: C19 / Model/TypedMysql.v); the decimal text form of numeric parameters (strconv) is not modelled; Handler.handleStatementExecute and the capability accessors of the first packets are run on truncated packets by the implementation oracle only (hooks VerifX12HandleStatementExecute / VerifX12Capabilities), not modelled; Gen/WireMysqlConsts.v: type tables probed from extractData for all 256 type bytes and read from base.NumericTypesStorageBytes"
         ],
         "assumptions": [
             "go_len s (len s <= 2^47, True of every Go byte slice) where the code converts len to uint64 or adds to it in int64",
@@ -494,6 +527,10 @@ PROPS = {
         ]
     },
     "C12": {
+        "properties": [
+            "C12",
+            "C12_mysql"
+        ],
         "domains": [
             {
                 "name": "c12",
@@ -501,12 +538,20 @@ PROPS = {
                 "n_quick": 150,
                 "n_thorough": 2500,
                 "model": True
+            },
+            {
+                "name": "c12my",
+                "run_vo": "Model/RunWireMysql.vo",
+                "n_quick": 30,
+                "n_thorough": 800,
+                "model": True
             }
         ],
         "trusted": [
             "modelled, not verified: Go's io.ReadFull/io.CopyN/bytes.Buffer/bufio.Writer (a reader over a byte stream yields the next n bytes or an error), encoding/binary, encoding/hex, unicode/utf8 ([]rune conversion and EncodeRune are written out in Model/Bytea.v and replayed against the real functions)",
             "the literal tag bytes 0xfb..0xfe and bounds 250/0xffff/0xffffff of decryptor/mysql/base/utils.go are written in the model (they are not named constants); the replay of the boundary table on every run ties them to the code",
-            "Bind / Parse / Execute / GetSimpleQuery are CHECKED models (Lib/GoSlice.v; int(uint16)/int(uint32) written out; the NULL parameter marker 0xFFFFFFFF is a literal of utils.go tied by the replay of the edge table); not modelled (implementation oracle only, through the hook VerifS14Proxy): PgProxy.handleClientPacket / handleDatabasePacket around them (statement registry, pg_query, pgproto3's RowDescription/ParameterDescription codecs), MySQL 3-byte packet framing, binary-protocol rows and NULL bitmap"
+            "Bind / Parse / Execute / GetSimpleQuery are CHECKED models (Lib/GoSlice.v; int(uint16)/int(uint32) written out; the NULL parameter marker 0xFFFFFFFF is a literal of utils.go tied by the replay of the edge table); not modelled (implementation oracle only, through the hook VerifS14Proxy): PgProxy.handleClientPacket / handleDatabasePacket around them (statement registry, pg_query, pgproto3's RowDescription/ParameterDescription codecs)",
+            "MySQL (Model/MysqlWireExt.v, Properties/C12_mysql.v, domain c12my): packet framing, classification, binary rows, column definition packets and the COM_STMT_EXECUTE parameter block are CHECKED models replayed through the add-only hook decryptor/mysql/export_verif_x12my.go; MaxPayloadLen is a parameter of the model (theorems for every value; the multi-packet branch of ReadPacket/Dump is tied to the real code only by the 16 MiB implementation oracle of the thorough tier, such literals cannot be replayed in Coq); the subscribers of a row (onColumnDecryption) and GetType/GetData/Encode of a bound value are arbitrary functions in the theorems and scripted in the replay (their own behaviour: C19 / Model/TypedMysql.v); the decimal text form of numeric parameters (strconv) is not modelled; Handler.handleStatementExecute and the capability accessors of the first packets are run on truncated packets by the implementation oracle only (hooks VerifX12HandleStatementExecute / VerifX12Capabilities), not modelled; Gen/WireMysqlConsts.v: type tables probed from extractData for all 256 type bytes and read from base.NumericTypesStorageBytes"
         ],
         "assumptions": [
             "message/payload lengths below 2^32 and column counts below 2^16 where the protocol's own fields are that wide (premises of the theorems)",
